@@ -547,6 +547,12 @@ func (x *Exec) applyContract(fr *Frame, st *State, sp *FuncSpec, sig *types.Sign
 			}
 		}
 	}
+	if !x.dry {
+		if x.usedSpecs == nil {
+			x.usedSpecs = map[string]*FuncSpec{}
+		}
+		x.usedSpecs[sp.Key()] = sp
+	}
 	// probe taken before the call (see the after-call vacuity probe below)
 	var preProbe *Oblig
 	if !x.dry && len(sp.Ensures) > 0 {
